@@ -207,9 +207,9 @@ func goroutineState(id int64) string {
 func init() {
 	Register(&Check{
 		ID: "C33", World: "E/metrics", Gen: genMetrics, Run: runMetrics,
-		OwnProbes: []string{"reregister_after_use", "preempted_inside_operation", "get_of_used_metric"},
+		OwnProbes: []string{"reregister_after_use", "preempted_inside_operation", "get_of_used_metric", "call_ended_in_backend_panic"},
 		Real:      []string{"metrics.MultiMetrics (Register, Increment, Count, Gauge, Up, Down, Store, Get)"},
-		Stub:      []string{"metric backends (none enabled)", "config (MockConfig)", "task scheduling (cooperative TaskSched at simhook yield points)"},
+		Stub:      []string{"metric backends (a double that panics in plan-chosen calls, where Prometheus/OTel would be)", "config (MockConfig)", "task scheduling (cooperative TaskSched at simhook yield points)"},
 	})
 }
 
@@ -258,17 +258,43 @@ func genMetrics(r *Rng, tier string, p *Plan) {
 				p.Add(Op{K: "inc", I: c, J: j})
 			} else {
 				bit++
-				p.Add(Op{K: "count", I: c, J: j, N: int64(1) << (bit + 8)}) // unique, attributable increments
+				p.Add(Op{K: "count", I: c, J: j, N: int64(1) << (bit + 8), B: r.Bool(0.12)}) // unique, attributable increments; B: the backend rejects this call
 			}
 		case "gauge":
 			p.Add(Op{K: "gauge", I: c, J: j, N: int64(i)*7 + 3})
 		case "updown":
-			p.Add(Op{K: PickOf(r, "up", "up", "down"), I: c, J: j})
+			p.Add(Op{K: PickOf(r, "up", "up", "down"), I: c, J: j, B: r.Bool(0.08)})
 		case "store":
 			p.Add(Op{K: "store", I: c, J: j, N: int64(i)*11 + 5})
 		}
 	}
 }
+
+// faultyBackend is a child backend of the MultiMetrics (where Prometheus or
+// OTel metrics would be): it does nothing, except that it panics in the call
+// the plan marked - a backend rejecting what it is given.
+type faultyBackend struct {
+	mu   sync.Mutex
+	fail map[int64]bool // goroutine ids whose next backend call panics
+}
+
+func (b *faultyBackend) maybe() {
+	g := goid()
+	b.mu.Lock()
+	f := b.fail[g]
+	delete(b.fail, g)
+	b.mu.Unlock()
+	if f {
+		panic("backend rejects this call")
+	}
+}
+func (b *faultyBackend) Register(metrics.Metadata)  {}
+func (b *faultyBackend) Increment(string)           { b.maybe() }
+func (b *faultyBackend) Gauge(string, float64)      { b.maybe() }
+func (b *faultyBackend) Count(string, int64)        { b.maybe() }
+func (b *faultyBackend) Histogram(string, float64)  {}
+func (b *faultyBackend) Up(string)                  { b.maybe() }
+func (b *faultyBackend) Down(string)                { b.maybe() }
 
 type mIn struct {
 	op   string
@@ -338,9 +364,41 @@ var metricsModel = porcupine.Model{
 	},
 }
 
+func execOp(mm *metrics.MultiMetrics, nm mName, op Op, o *mOut, hmu *sync.Mutex, used map[string]bool, out *Outcome) {
+	switch op.K {
+	case "register":
+		hmu.Lock()
+		if used[nm.name] {
+			out.Probe("reregister_after_use")
+		}
+		hmu.Unlock()
+		mm.Register(metrics.Metadata{Name: nm.name, Type: nm.typ})
+	case "inc":
+		mm.Increment(nm.name)
+	case "count":
+		mm.Count(nm.name, op.N)
+	case "gauge":
+		mm.Gauge(nm.name, float64(op.N))
+	case "up":
+		mm.Up(nm.name)
+	case "down":
+		mm.Down(nm.name)
+	case "store":
+		mm.Store(nm.name, float64(op.N))
+	case "get":
+		o.val, o.ok = mm.Get(nm.name)
+		hmu.Lock()
+		if used[nm.name] {
+			out.Probe("get_of_used_metric")
+		}
+		hmu.Unlock()
+	}
+}
+
 func runMetrics(t *testing.T, p *Plan) *Outcome {
 	out := NewOutcome()
 	var hist []porcupine.Operation
+	var unsure []int // indices into hist of calls that ended in a panic
 	pt := InBubble(t, func() {
 		mm := metrics.NewMultiMetrics()
 		mm.Config = &config.MockConfig{}
@@ -348,6 +406,8 @@ func runMetrics(t *testing.T, p *Plan) *Outcome {
 			out.Harness = err.Error()
 			return
 		}
+		backend := &faultyBackend{fail: map[int64]bool{}}
+		mm.AddChild(backend)
 		sched := NewTaskSched(p.Seed, out)
 		sched.Stickiness = float64(p.N["stick_pct"]) / 100
 		simhook.SetYield(sched.Yield)
@@ -359,38 +419,34 @@ func runMetrics(t *testing.T, p *Plan) *Outcome {
 			in := mIn{op: op.K, name: nm.name, arg: float64(op.N)}
 			var o mOut
 			call := sched.Stamp()
-			switch op.K {
-			case "register":
-				hmu.Lock()
-				if used[nm.name] {
-					out.Probe("reregister_after_use")
-				}
-				hmu.Unlock()
-				mm.Register(metrics.Metadata{Name: nm.name, Type: nm.typ})
-			case "inc":
-				mm.Increment(nm.name)
-			case "count":
-				mm.Count(nm.name, op.N)
-			case "gauge":
-				mm.Gauge(nm.name, float64(op.N))
-			case "up":
-				mm.Up(nm.name)
-			case "down":
-				mm.Down(nm.name)
-			case "store":
-				mm.Store(nm.name, float64(op.N))
-			case "get":
-				o.val, o.ok = mm.Get(nm.name)
-				hmu.Lock()
-				if used[nm.name] {
-					out.Probe("get_of_used_metric")
-				}
-				hmu.Unlock()
+			panicked := false
+			if op.B {
+				backend.mu.Lock()
+				backend.fail[goid()] = true
+				backend.mu.Unlock()
+				out.Fault("backend_rejects_call")
 			}
+			func() {
+				defer func() {
+					if r := recover(); r != nil {
+						panicked = true
+					}
+				}()
+				execOp(mm, nm, op, &o, &hmu, used, out)
+			}()
+			backend.mu.Lock()
+			delete(backend.fail, goid())
+			backend.mu.Unlock()
 			ret := sched.Stamp()
 			hmu.Lock()
 			if op.K != "get" && op.K != "register" {
 				used[nm.name] = true
+			}
+			if panicked {
+				// a call that panicked did not complete: whether it recorded anything is
+				// not specified, so both readings are tried below
+				out.Probe("call_ended_in_backend_panic")
+				unsure = append(unsure, len(hist))
 			}
 			hist = append(hist, porcupine.Operation{ClientId: client, Input: in, Call: call, Output: o, Return: ret})
 			hmu.Unlock()
@@ -427,7 +483,26 @@ func runMetrics(t *testing.T, p *Plan) *Outcome {
 		return out
 	}
 	// checked outside the bubble: porcupine's timeout must be real time
-	res := porcupine.CheckOperationsTimeout(metricsModel, hist, 20*time.Second)
+	res := porcupine.Illegal
+	if len(unsure) > 6 {
+		unsure = unsure[:6]
+	}
+	// every reading of the calls that panicked: each either took effect or did not
+	for mask := 0; mask < 1<<len(unsure) && res == porcupine.Illegal; mask++ {
+		drop := map[int]bool{}
+		for b, idx := range unsure {
+			if mask&(1<<b) != 0 {
+				drop[idx] = true
+			}
+		}
+		var h []porcupine.Operation
+		for i, o := range hist {
+			if !drop[i] {
+				h = append(h, o)
+			}
+		}
+		res = porcupine.CheckOperationsTimeout(metricsModel, h, 20*time.Second)
+	}
 	switch res {
 	case porcupine.Illegal:
 		out.Violate("C33", "history_not_linearizable", "metrics.MultiMetrics", "the recorded history of %d operations has no linearization under the sequential model (counter=sum of increments, gauge=last value, updown=ups-downs, Register never changes a value); see log", len(hist))
